@@ -67,6 +67,8 @@ pub struct SimDisk {
     /// C33: purge calls are judged at the instant they are issued (cluster runs only)
     pub oracle: Option<crate::oracle::OracleRef>,
     pub sm_img: Option<crate::sm::SmImageRef>,
+    /// the node's snapshots directory (is the covering snapshot *file* still there?)
+    pub snap_dir: Option<std::path::PathBuf>,
 }
 
 pub type DiskRef = Arc<Mutex<SimDisk>>;
@@ -86,6 +88,7 @@ impl SimDisk {
             flush_ledger: Vec::new(),
             oracle: None,
             sm_img: None,
+            snap_dir: None,
         }))
     }
 
@@ -291,13 +294,40 @@ impl LogStore for SimLogStore {
         self.gate(2, "purge").await?;
         self.disk.lock().unwrap().stats.purges += 1;
         {
-            let (oracle, img, node) = {
+            let (oracle, img, node, snap_dir) = {
                 let d = self.disk.lock().unwrap();
-                (d.oracle.clone(), d.sm_img.clone(), d.node)
+                (d.oracle.clone(), d.sm_img.clone(), d.node, d.snap_dir.clone())
             };
             if let Some(o) = oracle {
                 let snap = img.and_then(|i| i.lock().unwrap().snapshot_meta.as_ref().map(|m| m.0));
                 o.lock().unwrap().on_purge(node, cutoff_index.index, snap);
+                // is a snapshot *file* whose boundary covers the cutoff still on disk?
+                if let Some(dir) = snap_dir {
+                    let mut newest: Option<u64> = None;
+                    let mut names = Vec::new();
+                    if let Ok(rd) = std::fs::read_dir(&dir) {
+                        for e in rd.flatten() {
+                            let name = e.file_name().to_string_lossy().to_string();
+                            // snapshot-<index>-<term>.tar.gz
+                            if let Some(rest) = name.strip_prefix("snapshot-") {
+                                if name.ends_with(".tar.gz") {
+                                    if let Some(idx) = rest.split('-').next().and_then(|x| x.parse::<u64>().ok()) {
+                                        newest = Some(newest.map_or(idx, |n| n.max(idx)));
+                                        names.push(name.clone());
+                                    }
+                                }
+                            }
+                        }
+                    }
+                    if newest.is_none_or(|n| n < cutoff_index.index) {
+                        names.sort();
+                        o.lock().unwrap().violate(
+                            "C33",
+                            "purged_without_snapshot_file",
+                            serde_json::json!({"node": node, "cutoff": cutoff_index.index, "newest_snapshot_file_index": newest, "files": names}),
+                        );
+                    }
+                }
             }
         }
         self.mutate(DiskOp::Purge(cutoff_index));
